@@ -51,6 +51,25 @@ fn pool(rng: &mut Rng, n_inputs: usize) -> Vec<Case> {
         bases.push(t.into_bytes());
         bases.push(folded.into_bytes());
     }
+    // stateful decoders: texts in ISO-2022-JP, well formed and broken inside a shifted run (what one call leaves a
+    // decoder in must not be what the next call starts from)
+    {
+        let jp = "\u{3053}\u{3093}\u{306b}\u{3061}\u{306f}\u{4e16}\u{754c}\u{3001}\u{3053}\u{308c}\u{306f}\u{30c6}\u{30b9}\u{30c8}\u{3067}\u{3059}\u{3002}";
+        let good = enc_bytes_lossy(&format!("Subject: test mail\n\n{} plain words {} and more words {}\n", jp, jp, jp), "iso-2022-jp");
+        if !good.is_empty() {
+            let mut broken = b"Header: x\n\x1b$B$3$l$O".to_vec();
+            broken.push(0xe9);
+            broken.extend_from_slice(b" rest of the line\n");
+            let mut broken2 = b"\x1b$B$3$l".to_vec();
+            broken2.extend_from_slice(b"\x80\x81 tail");
+            bases.push(broken);
+            bases.push(good.clone());
+            bases.push(broken2);
+            let mut good2 = b"From: someone\n".to_vec();
+            good2.extend_from_slice(&good);
+            bases.push(good2);
+        }
+    }
     for b in bases {
         let mut variants = vec![Sett::default()];
         let mut s = Sett::default();
@@ -90,6 +109,38 @@ pub fn run(thorough: bool, seed: u64, _replay: Option<String>) -> Report {
     let mut rep = Report::new("C11", seed);
     let mut drv = Driver::spawn();
     let mut rng = Rng::new(seed);
+    // (0) first thing in this fresh process – stateful decoders: a well-formed ISO-2022-JP text is detected, then
+    // texts on which the ISO-2022-JP probe fails inside a shifted run, then the well-formed text again (and once
+    // more): whatever a failed decode leaves behind must not reach the next one
+    {
+        let jp = "\u{3053}\u{3093}\u{306b}\u{3061}\u{306f}\u{4e16}\u{754c}\u{3001}\u{3053}\u{308c}\u{306f}\u{30c6}\u{30b9}\u{30c8}\u{3067}\u{3059}\u{3002}";
+        let good = enc_bytes_lossy(&format!("Subject: test mail\nFrom: someone\n\n{} {} {}\n", jp, jp, jp), "iso-2022-jp");
+        let mut broken: Vec<Vec<u8>> = vec![];
+        for tail in [&b"\xe9 rest of the line\n"[..], &b"\x80\x81 tail"[..], &b"\xff"[..]] {
+            let mut b = b"Header: x\n\x1b$B$3$l$O".to_vec();
+            b.extend_from_slice(tail);
+            broken.push(b);
+        }
+        if !good.is_empty() {
+            for sett in [Sett::default(), { let mut s = Sett::default(); s.incl = vec!["iso-2022-jp".into()]; s }] {
+                let cold = real_detect(&good, &sett);
+                for b in &broken {
+                    let _ = real_detect(b, &sett);
+                    let warm = real_detect(&good, &sett);
+                    rep.evaluations += 1;
+                    rep.oracle_checked += 1;
+                    rep.count("history:stateful-decoder");
+                    if warm != cold {
+                        rep.fail("oracle", "C11:answer-depends-on-a-failed-decode-before-it", &format!("after a text broken inside a shifted run: {} || first call of the process: {}", warm.show(), cold.show()), &good, Some(&sett), "stateful");
+                    }
+                    let again = real_detect(&good, &sett);
+                    if again != cold {
+                        rep.fail("oracle", "C11:answer-depends-on-a-failed-decode-before-it", &format!("second call after the broken text: {} || first call of the process: {}", again.show(), cold.show()), &good, Some(&sett), "stateful");
+                    }
+                }
+            }
+        }
+    }
     let p = pool(&mut rng, if thorough { 40 } else { 10 });
     // reference: every call answered on cold caches
     let reference: Vec<Outcome> = p
